@@ -393,6 +393,20 @@ func c14Check(c C14Case, cx *h.Ctx) *h.Failure {
 	if got := g.Length(); math.Abs(got-wantLen) > tauL*float64(1+len(eg.Segs())) {
 		return h.Failf("measure/length", "Length() = %.15g, exact length of the lineal part = %.15g%s", got, wantLen, desc())
 	}
+	// length is homogeneous: the same geometry scaled by 2^-600 and 2^+520 (exact scalings; the squares of its
+	// extents then under/overflow float64) has the scaled length
+	if wantLen > 0 && c.Family == "lattice" {
+		for _, k := range []int{-600, 520} {
+			sc := math.Ldexp(1, k)
+			sg := model.MapPositions(func(p []gm.F, _ int) []gm.F {
+				p[0], p[1] = gm.F(float64(p[0])*sc), gm.F(float64(p[1])*sc)
+				return p
+			}).ToGeom()
+			if got, want := sg.Length(), wantLen*sc; math.Abs(got-want) > 1e-9*want {
+				return h.Failf("measure/length-scale", "Length() of the geometry scaled by 2^%d = %g, want %g x 2^%d = %g%s", k, got, wantLen, k, want, desc())
+			}
+		}
+	}
 
 	// --- Centroid ---
 	cxw, cyw, cok := eg.Centroid()
